@@ -153,6 +153,11 @@ func (ac *affCtx) form(v ssa.Value) *affForm {
 	case *ssa.ChangeType:
 		return ac.form(x.X)
 	case *ssa.BinOp:
+		if ph, ok := x.X.(*ssa.Phi); ok && ph.Comment == "rangeindex" && x.Op == token.ADD {
+			if k, ok := constInt(x.Y); ok && k == 1 {
+				return affAtom("i")
+			}
+		}
 		switch x.Op {
 		case token.ADD:
 			return affAdd(ac.form(x.X), ac.form(x.Y), 1)
@@ -210,6 +215,12 @@ func (ac *affCtx) describe(v ssa.Value) string {
 	}
 	switch x := v.(type) {
 	case *ssa.Parameter:
+		// canonical: parameters are named by position (p0 = receiver or first parameter), so renaming them changes nothing
+		for i, p := range x.Parent().Params {
+			if p == x {
+				return fmt.Sprintf("p%d", i)
+			}
+		}
 		return x.Name()
 	case *ssa.Const:
 		if x.Value == nil {
@@ -235,10 +246,11 @@ func (ac *affCtx) describe(v ssa.Value) string {
 		if n == 1 {
 			return ac.describe(src)
 		}
-		if x.Comment != "" {
-			return x.Comment
+		// canonical: a local is named by its type, not by its identifier
+		if pt, ok := x.Type().(*types.Pointer); ok {
+			return "var<" + short(types.TypeString(pt.Elem(), nil)) + ">"
 		}
-		return x.Name()
+		return "var"
 	case *ssa.UnOp:
 		switch x.Op {
 		case token.MUL:
@@ -285,16 +297,33 @@ func (ac *affCtx) describe(v ssa.Value) string {
 		}
 		return name + "(" + strings.Join(args, ",") + ")"
 	case *ssa.BinOp:
+		if ph, ok := x.X.(*ssa.Phi); ok && ph.Comment == "rangeindex" && x.Op == token.ADD {
+			if k, ok := constInt(x.Y); ok && k == 1 {
+				return "i"
+			}
+		}
 		f := ac.form(v)
 		if f.bad == "" && !(len(f.nonzero()) == 1 && f.terms[f.nonzero()[0]] == 1 && f.k == 0) {
 			return f.String()
 		}
 		return "(" + ac.describe(x.X) + x.Op.String() + ac.describe(x.Y) + ")"
 	case *ssa.Phi:
-		if x.Comment != "" {
-			return "phi:" + x.Comment
+		if x.Comment == "rangeint.iter" {
+			return "i"
 		}
-		return "phi:" + x.Name()
+		// distinct phis stay distinct: numbered in block order within the function
+		n := 0
+		for _, b := range x.Parent().Blocks {
+			for _, in := range b.Instrs {
+				if ph, ok := in.(*ssa.Phi); ok {
+					if ph == x {
+						return fmt.Sprintf("phi%d<%s>", n, short(types.TypeString(x.Type(), nil)))
+					}
+					n++
+				}
+			}
+		}
+		return "phi<" + short(types.TypeString(x.Type(), nil)) + ">"
 	case *ssa.MakeClosure:
 		return "closure:" + fname(x.Fn.(*ssa.Function))
 	case *ssa.Slice:
